@@ -1590,6 +1590,9 @@ func runC04(a runArgs) error {
 	// with the token of a response that is still being fetched (c04flight.go)
 	c04SecondDoFamily(e, thorough)
 	c04StaleRequestFamily(e, thorough)
+	// blocks that do not continue what the receiver holds: stale blocks of an earlier transfer with the same
+	// token, offsets strictly inside the bytes held (c04stale.go)
+	c04StaleBlockFamily(e, thorough)
 	return e.Flush(a.out)
 }
 
